@@ -1,6 +1,6 @@
 (* C07 proofs: the "X ) ( name ) =" heuristic of compileTerm cannot apply when no '(' follows a ')'. *)
 From Coq Require Import List NArith Bool Arith Lia.
-From CV Require Import Ast.Defs Ast.Main1 Ast.Main2.
+From CV Require Import Ast.Defs Ast.Frag Ast.Main1 Ast.Main2.
 Import ListNotations.
 
 (* is there a '(' directly after a ')' ([p] = the previous token is ')') *)
